@@ -3,6 +3,7 @@ import SeqVerif.Model.DocsMergeLemmas
 import SeqVerif.Model.DocsMergeComplete
 import SeqVerif.Model.ProxyRead
 import SeqVerif.Model.ProxyCompose
+import SeqVerif.Model.ProxyE2E
 import SeqVerif.Extracted.C16
 /-!
 # C16 - proxy reads degrade honestly: complete if all shards answer, else marked partial
@@ -252,7 +253,7 @@ theorem c16_c05_compose (c : Merge.Cfg) (from_ to_ : Nat) (hot : List (List Call
       ids.map (fun x => keyOf x.1) =
         ((Merge.sd c.desc (((List.range hot.length).filter fun s =>
             ((hot[s]?).map fun calls => (searchShard calls).isOk).getD false).flatMap shardDocs)).drop offset).take size ∧
-      (ids.map (fun x => keyOf x.1)).Nodup := by
+      (ids.map (fun x => keyOf x.1)).Nodup ∧ (∀ x ∈ ids, x.1.2 < Merge.R) := by
   -- the request succeeds from the hot tier (C16)
   have hdeg := c16_degrades hot hotArr coldArr hh hn offset size rev
   have hex : ∃ ids t e p, search hotArr coldArr offset size rev = .ok ids t e p false := by
@@ -332,11 +333,16 @@ theorem c16_c05_compose (c : Merge.Cfg) (from_ to_ : Nat) (hot : List (List Call
         have : (⟨(s, rep), l, t', e'⟩ : ProxySearch.QPR) ∈ qs := (hq _).mpr ⟨hot[s], hget, hr⟩
         exact ⟨_, ⟨_, this, rfl⟩, (hrep s rep d).mpr hd⟩
       | _ => rw [hr] at hok; simp [ShardRes.isOk] at hok
-  refine ⟨ids, t, e, p, hs, hflag, ?_, ?_⟩
+  refine ⟨ids, t, e, p, hs, hflag, ?_, ?_, ?_⟩
   · rw [hkeys, hdesc, Merge.sd_congr (!rev) _ _ hmem]
   · rw [hkeys]
     exact List.Nodup.sublist ((List.take_sublist _ _).trans (List.drop_sublist _ _))
       (Merge.sortedBy_nodup (!rev) _ (Merge.sd_sorted (!rev) _))
+  · intro x hx
+    have hattr := hon.2.1 x hx
+    simp only [Bool.false_eq_true, if_false] at hattr
+    obtain ⟨l, ⟨calls, t', e', h1, h2⟩, hxl⟩ := hattr
+    exact (hans _ calls _ _ _ _ h1 h2).1 _ hxl
 
 open SV.ProxyCompose in
 /-- the complete case spelled out: every shard has an answering replica => unflagged, and the page is taken from the
@@ -366,7 +372,7 @@ theorem c16_c05_complete (c : Merge.Cfg) (from_ to_ : Nat) (hot : List (List Cal
     cases hot with
     | nil => exact absurd rfl hne
     | cons x xs => exact ⟨x, List.mem_cons_self, hall x List.mem_cons_self⟩
-  obtain ⟨ids, t, e, p, h1, h2, h3, _⟩ := c16_c05_compose c from_ to_ hot hotArr coldArr hh offset size rev hdesc fracs
+  obtain ⟨ids, t, e, p, h1, h2, h3, _, _⟩ := c16_c05_compose c from_ to_ hot hotArr coldArr hh offset size rev hdesc fracs
     shardDocs hn hsome hans hinv hvis hmax hrep
   have hp : p = false := h2.mpr hall
   subst hp
@@ -379,6 +385,110 @@ theorem c16_c05_complete (c : Merge.Cfg) (from_ to_ : Nat) (hot : List (List Cal
   rw [List.getElem?_eq_getElem hlt]
   simp only [Option.map_some, Option.getD_some]
   exact hall _ (List.getElem_mem hlt)
+
+/-! ## the top of the refinement chain: C16 ∘ C05 ∘ C02 against `Spec.search` -/
+
+open SV.ProxyCompose SV.ProxyE2E in
+/-- **C16 end to end against the Spec.**  Shard `s` stores the fraction indexes `fracs s` (C02's `EvalTree.Index`
+with `Info().From/To`), and every replica of `s` holds them.  Hypotheses, by origin:
+* *C02* (inside `FracIdx.OK`, per fraction): `wf` - posting lists strictly ascending and in range; `sorted` - the ID
+  table is `SortedDesc`; `rid` - RIDs `≤ maxU64`; `zero` - the zero-ID side condition (`0 < from` or no `0:0` ID).
+* *C05*: `bounds` of `FracIdx.OK` (`From ≤ mid ≤ To`, the fraction invariant - visibility follows from it); `hmax` -
+  the `MaxFractionHits` guard does not reject, per shard.  (C05's "no document stored twice" is needed for totals
+  only; this theorem is about IDs, where a document stored on several fractions / shards / replicas is listed once.)
+* *C16*: `hh` - any arrival order; `hn` - no hot shard refuses and each has a replica; `hsome` - some shard answers.
+* *link C16-C05*: `hans` - the response of an answering replica of shard `s` carries (with `uint64` RIDs) the IDs that
+  `SearchDocs` returns for `fracs s` with limit `offset+size`; `hdesc` - the store is asked in the proxy's order.
+Conclusion: `Search` succeeds, is unflagged iff every shard answered, and its IDs are exactly page
+`[offset, offset+size)` of `Spec.search` (limit `offset+size`) over all documents of all fractions of the *answering*
+shards, matching `q` in `[from, to]`; no ID occurs twice. -/
+theorem c16_e2e_spec (c : Merge.Cfg) (q : Spec.Query) (from_ to_ : Nat) (hot : List (List Call))
+    (hotArr coldArr : List (Nat × ShardRes)) (hh : hotArr.Perm (indexed 0 (hot.map searchShard)))
+    (offset size : Nat) (rev : Bool) (hdesc : c.desc = !rev) (fracs : Nat → List Merge.FracIdx)
+    (hok : ∀ s, ∀ f ∈ fracs s, f.OK from_)
+    (hmax : ∀ s, c.maxHits = 0 ∨ (Merge.filterInRange (storeFracs (fracs s) q from_ to_) from_ to_).length ≤ c.maxHits)
+    (hn : ∀ calls ∈ hot, searchShard calls ≠ .wod ∧ searchShard calls ≠ .tmf ∧ calls ≠ [])
+    (hsome : ∃ calls ∈ hot, (searchShard calls).isOk = true)
+    (hans : ∀ s calls rep ids t e, hot[s]? = some calls → searchShard calls = .ok rep ids t e →
+      (∀ i ∈ ids, i.2 < Merge.R) ∧
+      ∃ r, Merge.searchDocs c (storeFracs (fracs s) q from_ to_) from_ to_ (offset + size) = some r ∧
+        r.ids = ids.map keyOf) :
+    ∃ ids t e p, search hotArr coldArr offset size rev = .ok ids t e p false ∧
+      (p = false ↔ ∀ calls ∈ hot, (searchShard calls).isOk = true) ∧
+      ids.map (fun x => toSpecID x.1) =
+        ((Spec.search (storedDocs (((List.range hot.length).filter fun s =>
+            ((hot[s]?).map fun calls => (searchShard calls).isOk).getD false).flatMap fracs))
+          q from_ to_ rev (offset + size) c.withTotal).ids.drop offset).take size ∧
+      (ids.map (fun x => toSpecID x.1)).Nodup := by
+  have hinvvis := fun s => storeFracs_inv (fracs s) q from_ to_ (hok s)
+  obtain ⟨ids, t, e, p, h1, h2, h3, h4, h5⟩ := c16_c05_compose c from_ to_ hot hotArr coldArr hh offset size rev hdesc
+    (fun s _ => storeFracs (fracs s) q from_ to_) (fun s => Merge.docsOf (storeFracs (fracs s) q from_ to_))
+    hn hsome hans (fun s _ => (hinvvis s).1) (fun s _ => (hinvvis s).2) (fun s _ => hmax s) (fun _ _ _ => Iff.rfl)
+  have hspec := sd_stores_eq_spec c.desc ((List.range hot.length).filter fun s =>
+      ((hot[s]?).map fun calls => (searchShard calls).isOk).getD false) fracs q from_ to_ (offset + size) c.withTotal
+    (fun s _ f hf => hok s f hf)
+  rw [← page_of_take, hspec, hdesc, Bool.not_not, ← List.map_drop, ← List.map_take] at h3
+  have hrid : ∀ i ∈ ((Spec.search (storedDocs (((List.range hot.length).filter fun s =>
+      ((hot[s]?).map fun calls => (searchShard calls).isOk).getD false).flatMap fracs))
+      q from_ to_ rev (offset + size) c.withTotal).ids.drop offset).take size, i.rid ≤ Borders.maxU64 := by
+    intro i hi
+    apply spec_ids_rid _ q from_ to_ (offset + size) rev c.withTotal _ i (List.mem_of_mem_drop (List.mem_of_mem_take hi))
+    intro d hd
+    obtain ⟨f, hf, hdf⟩ := List.mem_flatMap.mp hd
+    obtain ⟨s, _, hfs⟩ := List.mem_flatMap.mp hf
+    exact (hok s f hfs).rid _ (Merge.docsOf_id_mem f.idx d hdf)
+  have hids : (ids.map (·.1)).map toSpecID = _ :=
+    ids_of_keys (ids.map (·.1)) _ (by intro i hi; obtain ⟨x, hx, rfl⟩ := List.mem_map.mp hi; exact h5 x hx) hrid
+      (by rw [List.map_map]; exact h3)
+  refine ⟨ids, t, e, p, h1, h2, by rw [← hids, List.map_map]; rfl, ?_⟩
+  -- no ID twice: the key list is duplicate free and the key is a function of the Spec ID
+  have : (ids.map (fun x => toSpecID x.1)).map Merge.keyOf = ids.map (fun x => keyOf x.1) := by
+    simp [List.map_map, Function.comp, keyOf_toSpecID]
+  rw [← this] at h4
+  exact List.Pairwise.imp (fun hne heq => hne (by rw [heq])) (List.pairwise_map.mp h4)
+
+open SV.ProxyCompose SV.ProxyE2E in
+/-- the complete case: every shard has an answering replica => unflagged, and the IDs are the page of `Spec.search`
+over all documents of all fractions of *all* shards -/
+theorem c16_e2e_spec_complete (c : Merge.Cfg) (q : Spec.Query) (from_ to_ : Nat) (hot : List (List Call))
+    (hotArr coldArr : List (Nat × ShardRes)) (hh : hotArr.Perm (indexed 0 (hot.map searchShard)))
+    (offset size : Nat) (rev : Bool) (hdesc : c.desc = !rev) (fracs : Nat → List Merge.FracIdx)
+    (hok : ∀ s, ∀ f ∈ fracs s, f.OK from_)
+    (hmax : ∀ s, c.maxHits = 0 ∨ (Merge.filterInRange (storeFracs (fracs s) q from_ to_) from_ to_).length ≤ c.maxHits)
+    (hne : hot ≠ []) (hall : ∀ calls ∈ hot, (searchShard calls).isOk = true)
+    (hans : ∀ s calls rep ids t e, hot[s]? = some calls → searchShard calls = .ok rep ids t e →
+      (∀ i ∈ ids, i.2 < Merge.R) ∧
+      ∃ r, Merge.searchDocs c (storeFracs (fracs s) q from_ to_) from_ to_ (offset + size) = some r ∧
+        r.ids = ids.map keyOf) :
+    ∃ ids t e, search hotArr coldArr offset size rev = .ok ids t e false false ∧
+      ids.map (fun x => toSpecID x.1) =
+        ((Spec.search (storedDocs ((List.range hot.length).flatMap fracs)) q from_ to_ rev (offset + size)
+          c.withTotal).ids.drop offset).take size ∧
+      (ids.map (fun x => toSpecID x.1)).Nodup := by
+  have hn : ∀ calls ∈ hot, searchShard calls ≠ .wod ∧ searchShard calls ≠ .tmf ∧ calls ≠ [] := by
+    intro calls hc
+    have hok' := hall calls hc
+    refine ⟨?_, ?_, ?_⟩ <;> intro h <;> (try rw [h] at hok') <;> (try simp [ShardRes.isOk] at hok')
+    subst h
+    simp [searchShard, searchShardGo] at hok'
+  have hsome : ∃ calls ∈ hot, (searchShard calls).isOk = true := by
+    cases hot with
+    | nil => exact absurd rfl hne
+    | cons x xs => exact ⟨x, List.mem_cons_self, hall x List.mem_cons_self⟩
+  obtain ⟨ids, t, e, p, h1, h2, h3, h4⟩ := c16_e2e_spec c q from_ to_ hot hotArr coldArr hh offset size rev hdesc fracs
+    hok hmax hn hsome hans
+  have hp : p = false := h2.mpr hall
+  subst hp
+  have hfilter : ((List.range hot.length).filter fun s =>
+      ((hot[s]?).map fun calls => (searchShard calls).isOk).getD false) = List.range hot.length := by
+    apply List.filter_eq_self.mpr
+    intro s hs
+    have hlt := List.mem_range.mp hs
+    rw [List.getElem?_eq_getElem hlt]
+    simp only [Option.map_some, Option.getD_some]
+    exact hall _ (List.getElem_mem hlt)
+  rw [hfilter] at h3
+  exact ⟨ids, t, e, h1, h3, h4⟩
 
 /-! ## fetch side -/
 
@@ -738,6 +848,39 @@ example :
     · simp only [fracs, h0, if_false, List.mem_singleton] at hf; subst hf; decide
   · intro s rep d
     by_cases h0 : s = 0 <;> simp [fracs, shardDocs, h0, Merge.docsOf]
+
+/-- the hypotheses of `c16_e2e_spec` / `c16_e2e_spec_complete` are met by a concrete deployment: one shard whose
+replicas hold one well-formed fraction index (IDs 7:1, 7:0, 5:2, token a:x on LIDs 1 and 3), query `a:x`, window
+[0, 100], newest first, page (0, 2); the first replica fails, the second answers what `SearchDocs` returns -/
+example :
+    let c : Merge.Cfg := ⟨true, false, 0, false, 0, 0⟩
+    let q : Spec.Query := .leaf (.lit [97] [.text [120]])
+    let fracs : Nat → List Merge.FracIdx := fun _ => [⟨⟨[⟨7, 1⟩, ⟨7, 0⟩, ⟨5, 2⟩], [⟨[97], [120], [1, 3]⟩]⟩, 5, 7⟩]
+    let hot : List (List Call) := [[.fail, .resp .none [(7, 1), (5, 2)] 0 0]]
+    (∀ s, ∀ f ∈ fracs s, f.OK 0) ∧
+    (∀ s, c.maxHits = 0 ∨ (Merge.filterInRange (ProxyE2E.storeFracs (fracs s) q 0 100) 0 100).length ≤ c.maxHits) ∧
+    (∀ calls ∈ hot, (searchShard calls).isOk = true) ∧
+    (∀ s calls rep ids t e, hot[s]? = some calls → searchShard calls = .ok rep ids t e →
+      (∀ i ∈ ids, i.2 < Merge.R) ∧
+      ∃ r, Merge.searchDocs c (ProxyE2E.storeFracs (fracs s) q 0 100) 0 100 (0 + 2) = some r ∧
+        r.ids = ids.map ProxyCompose.keyOf) := by
+  intro c q fracs hot
+  refine ⟨?_, fun _ => Or.inl rfl, by decide, ?_⟩
+  · intro s f hf
+    simp only [fracs, List.mem_singleton] at hf
+    subst hf
+    refine ⟨⟨?_, ?_⟩, ?_, ?_, Or.inr ?_, ?_⟩ <;> decide
+  · intro s calls rep ids t e hs hok
+    match s, hs with
+    | 0, hs =>
+      simp only [hot, List.getElem?_cons_zero, Option.some.injEq] at hs
+      subst hs
+      have : searchShard [Call.fail, Call.resp .none [(7, 1), (5, 2)] 0 0] = .ok 1 [(7, 1), (5, 2)] 0 0 := by decide
+      rw [this] at hok
+      injection hok with h1 h2 h3 h4
+      subst h1 h2 h3 h4
+      refine ⟨by decide, ⟨[(7, 1), (5, 2)].map ProxyCompose.keyOf, 0, some []⟩, by decide +kernel, rfl⟩
+    | n + 1, hs => simp [hot] at hs
 
 /-- three sources, one stream truncated, one carrying an unrequested and a repeated document, hints present -/
 example :
